@@ -102,7 +102,13 @@ fn check_spline(cfg: &sp::Cfg, deg: usize) -> Report {
                     }
                     seen.push(key);
                     for j in 0..lanes {
-                        let a = [format!("(not (= {} {}))", chk.term(v[0][j]), chk.term(expect[j]))];
+                        if chk.rep.findings.iter().any(|f| f.reproduced == Some(true)) {
+                            break;
+                        }
+                        // under the path condition (it carries the region of q and any data-dependent decision of the code,
+                        // e.g. a magnitude guard): a model then really drives the code down this path
+                        let mut a = chk.pc(&p.pc);
+                        a.push(format!("(not (= {} {}))", chk.term(v[0][j]), chk.term(expect[j])));
                         if let Verdict::Cex(vals) = chk.must_unsat("polynomial-reproduced", &format!("{rname}, lane {j}: S(q) = p(q) for every coefficient vector and query"), &a, &all_vars) {
                             // exact replay: bind coefficients and q, run the real crate concretely
                             let m = model_of(&vals);
@@ -115,12 +121,16 @@ fn check_spline(cfg: &sp::Cfg, deg: usize) -> Report {
                             let (s2, coef2) = poly_symbols(cfg, deg);
                             let q2 = Sym::var("q");
                             // the solver's q may lie anywhere: the identity is polynomial, so replay at a point of this region
-                            let probe = match interval {
-                                Some(i) => (s2.x[*i] + s2.x[*i + 1]) / Sym::int(2),
-                                None if ri == 0 => s2.x[0] - Sym::int(1),
-                                None => s2.x[n - 1] + Sym::int(1),
+                            // the model's own q lies in this region (the path condition was part of the query)
+                            let probe = if q2.konst().is_some() {
+                                q2
+                            } else {
+                                match interval {
+                                    Some(i) => (s2.x[*i] + s2.x[*i + 1]) / Sym::int(2),
+                                    None if ri == 0 => s2.x[0] - Sym::int(1),
+                                    None => s2.x[n - 1] + Sym::int(1),
+                                }
                             };
-                            let _ = q2;
                             let got = run_concrete(Mode::R, || sp::problem_of(cfg, &s2, true).eval(&[probe]));
                             let want = poly(&coef2[j], probe);
                             with_ctx(|c| c.bindings.clear());
@@ -142,8 +152,59 @@ fn check_spline(cfg: &sp::Cfg, deg: usize) -> Report {
                                     }
                                 }
                                 other => {
-                                    rec.set("observed", format!("{:?}", other.map(|r| r.map(|_| ()))));
-                                    Some(true)
+                                    // the exact run could not be completed (e.g. a comparison against a float constant outside
+                                    // the exact rational range): replay natively at f64 with the model's values instead
+                                    rec.set("exact_replay", format!("{:?}", other.map(|r| r.map(|_| ()))));
+                                    // values the exact rational type cannot hold (e.g. 1e-300) are read approximately from the model text
+                                    let approx: BTreeMap<String, f64> = vals.iter().filter_map(|(k, v)| crate::engine::smt::sx_to_f64_approx(v).map(|x| (k.clone(), x))).collect();
+                                    let names: Vec<Vec<String>> = (0..lanes).map(|l| (0..=deg).map(|k| format!("c{k}_{l}")).collect()).collect();
+                                    let f = |t: Sym| t.konst().map(|r| r.to_f64()).unwrap_or(f64::NAN);
+                                    let cval = |l: usize, k: usize| coef2[l][k].konst().map(|r| r.to_f64()).or(approx.get(&names[l][k]).copied()).unwrap_or(0.0);
+                                    let cf: Vec<f64> = (0..=deg).map(|k| cval(j, k)).collect();
+                                    let pf = |x: f64| cf.iter().rev().fold(0.0, |acc, c| acc * x + c);
+                                    let xf: Vec<f64> = cfg.axis.x.iter().map(|r| r.to_f64()).collect();
+                                    let lanes_n = cfg.lanes();
+                                    let mut shape = vec![n];
+                                    shape.extend(&cfg.trailing);
+                                    let all_cf: Vec<Vec<f64>> = (0..lanes).map(|l| (0..=deg).map(|k| cval(l, k)).collect()).collect();
+                                    let pl = |l: usize, x: f64| all_cf[l].iter().rev().fold(0.0, |acc, c| acc * x + c);
+                                    let data: Vec<f64> = (0..n).flat_map(|i| (0..lanes_n).map(move |l| (i, l))).map(|(i, l)| pl(l, xf[i])).collect();
+                                    // boundary derivative values from the same polynomial
+                                    let dpl = |l: usize, x: f64, order: usize| -> f64 {
+                                        let mut d = all_cf[l].clone();
+                                        for _ in 0..order {
+                                            d = d.iter().enumerate().skip(1).map(|(k, v)| v * k as f64).collect();
+                                            if d.is_empty() {
+                                                d = vec![0.0];
+                                            }
+                                        }
+                                        d.iter().rev().fold(0.0, |acc, c| acc * x + c)
+                                    };
+                                    let side = |l: usize, e: Option<End>, at: f64| match e {
+                                        Some(End::D1) => dpl(l, at, 1),
+                                        Some(End::D2) => dpl(l, at, 2),
+                                        _ => 0.0,
+                                    };
+                                    let vlf: Vec<f64> = (0..lanes_n).map(|l| side(l, cfg.bc.ends(l).map(|e| e.0), xf[0])).collect();
+                                    let vrf: Vec<f64> = (0..lanes_n).map(|l| side(l, cfg.bc.ends(l).map(|e| e.1), xf[n - 1])).collect();
+                                    let native = crate::spline::SplineProblem { x: xf.clone(), data: ndarray::ArrayD::from_shape_vec(ndarray::IxDyn(&shape), data).unwrap(), bc: cfg.bc.clone(), vl: vlf, vr: vrf, extrapolate: true };
+                                    let qf = if f(probe).is_finite() { f(probe) } else { approx.get("q").copied().unwrap_or(xf[0] - 1.0) };
+                                    crate::engine::core::silence_panics();
+                                    match std::panic::catch_unwind(std::panic::AssertUnwindSafe(|| native.eval(&[qf]))) {
+                                        Ok(Ok(v)) => {
+                                            let (got, want) = (v[0][j], pf(qf));
+                                            rec.set("native_observed", got);
+                                            rec.set("native_expected", want);
+                                            let scale = cf.iter().fold(0.0f64, |a, c| a.max(c.abs())) * (1.0 + qf.abs().powi(3));
+                                            rec.set("native_coefficients", format!("{all_cf:?}"));
+                                            if !got.is_finite() || !want.is_finite() {
+                                                None
+                                            } else {
+                                                Some((got - want).abs() > 1e-9 * scale)
+                                            }
+                                        }
+                                        _ => Some(true),
+                                    }
                                 }
                             };
                             let class = if cfg.axis.name == "uniform" { "uniform-axis" } else { "non-uniform-axis" };
@@ -275,7 +336,11 @@ fn items(args: &Args) -> Vec<Item> {
     let (nmax, per_n) = if thorough { (10, 24) } else { (6, 10) };
     let mut v = vec![];
     let cub = [End::Nak, End::D1, End::D2];
-    for n in 3..=nmax {
+    let mut sizes: Vec<(usize, usize)> = (3..=nmax).map(|n| (n, per_n)).collect();
+    if !thorough {
+        sizes.extend([(10, 5), (12, 4)]);
+    }
+    for (n, per_n) in sizes {
         for (ai, axis) in axis_family(n, per_n, args.seed).into_iter().enumerate() {
             let mut add = |bc: Bc, trailing: Vec<usize>, deg: usize| v.push(Item::Spl(sp::Cfg { axis: axis.clone(), bc, trailing, timeout_ms }, deg));
             // the default NotAKnot spline: any cubic for n >= 4, any quadratic for n = 3
@@ -327,7 +392,7 @@ pub fn run(args: &Args) -> Report {
     for f in sp::FUNCTIONS.iter().chain(c01::FUNCTIONS).chain(c04::FUNCTIONS) {
         rep.functions.insert(f.to_string());
     }
-    rep.bounds.push(format!("CubicSpline on the concrete axis family, n = 3..{}: NotAKnot + any cubic (n >= 4) / any quadratic (n = 3); Natural + any affine function; Clamped + constants; Mixed pairs over {{NotAKnot, FirstDeriv(p'(end)), SecondDeriv(p''(end))}} + any cubic; two lanes with different polynomials; symbolic coefficients and symbolic query in every interval and on both sides of the range (extrapolate(true))", if args.thorough() { 10 } else { 6 }));
+    rep.bounds.push(format!("CubicSpline on the concrete axis family, n = 3..{} (quick: plus 10 and 12): NotAKnot + any cubic (n >= 4) / any quadratic (n = 3); Natural + any affine function; Clamped + constants; Mixed pairs over {{NotAKnot, FirstDeriv(p'(end)), SecondDeriv(p''(end))}} + any cubic; two lanes with different polynomials; symbolic coefficients and symbolic query in every interval and on both sides of the range (extrapolate(true))", if args.thorough() { 10 } else { 6 }));
     rep.bounds.push("Linear + affine data (fully symbolic axis and default axis, n as C01) and Bilinear + a+bx+cy+dxy (concrete axes, grids as C04), unconstrained real query".into());
     rep.outside.push("rounding; symbolic spline / bilinear axes; n above the bound".into());
     rep.assumptions.insert("mode R: float operations read as exact real operations".into());
